@@ -132,12 +132,12 @@ theorem mapMOpt_over (V : List Sym) (f : Expr → Option Expr)
 
 section pass1
 variable (O : OracleS) (P : Val → Prop)
-variable (hS : ∀ sc, (O sc).Sound (Reach P sc)) (hM : ∀ sc, (O sc).ModNonNeg (Reach P sc))
-include hS hM
+variable (hS : ∀ sc, (O sc).Sound (Reach P sc))
+include hS
 
 theorem normE_eval (sc : Scope) (r : Sym → Int) (σ : CfgSt) (hR : Reach P sc ⟨r, σ⟩) (e e' : Expr)
     (hw : e.WF) (h : normE (O sc) e = some e') : eval ⟨r, σ⟩ e' = eval ⟨r, σ⟩ e :=
-  (normE_sound_WF (O sc) (Reach P sc) (hS sc) (hM sc) ⟨r, σ⟩ hR e e' hw h).1
+  (normE_sound_WF (O sc) (Reach P sc) (hS sc) ⟨r, σ⟩ hR e e' hw h).1
 
 mutual
 theorem normS_sound : ∀ (s : Stmt) (sc : Scope) (s' : Stmt), s.WF → normS O sc s = some s' →
@@ -147,19 +147,19 @@ theorem normS_sound : ∀ (s : Stmt) (sc : Scope) (s' : Stmt), s.WF → normS O 
     obtain ⟨es', hes, rfl⟩ := h
     simp only [execS]
     rw [mapMOpt_eval ⟨r, σ⟩ Expr.WF (normE (O sc))
-      (fun e e' hq he => normE_eval O P hS hM sc r σ hR e e' hq he) es es' hw hes]
+      (fun e e' hq he => normE_eval O P hS sc r σ hR e e' hq he) es es' hw hes]
   | .wcfg c f e, sc, s', hw, h, r, σ, hR => by
     simp only [normS, Option.map_eq_some_iff] at h
     obtain ⟨e', he, rfl⟩ := h
     simp only [execS]
-    rw [normE_eval O P hS hM sc r σ hR e e' hw he]
+    rw [normE_eval O P hS sc r σ hR e e' hw he]
   | .ite c t e, sc, s', hw, h, r, σ, hR => by
     simp only [normS] at h
     split at h
     · rename_i c' t' e' hc ht he
       simp only [Option.some.injEq] at h; subst h
       simp only [execS]
-      rw [normE_eval O P hS hM sc r σ hR c c' hw.1 hc,
+      rw [normE_eval O P hS sc r σ hR c c' hw.1 hc,
         normB_sound t sc t' hw.2.1 ht r σ hR, normB_sound e sc e' hw.2.2 he r σ hR]
     · cases h
   | .loop i lo hi b, sc, s', hw, h, r, σ, hR => by
@@ -173,8 +173,8 @@ theorem normS_sound : ∀ (s : Stmt) (sc : Scope) (s' : Stmt), s.WF → normS O 
         split at h
         · rename_i b' hb
           simp only [Option.some.injEq] at h; subst h
-          have elo := normE_eval O P hS hM sc r σ hR lo lo' hw.1 hlo
-          have ehi := normE_eval O P hS hM sc r σ hR hi hi' hw.2.1 hhi
+          have elo := normE_eval O P hS sc r σ hR lo lo' hw.1 hlo
+          have ehi := normE_eval O P hS sc r σ hR hi hi' hw.2.1 hhi
           simp only [execS, elo, ehi]
           apply iter_congr (fun _ => True) _ _ _ _ _ trivial
           intro v σ' _ h1 h2
